@@ -43,7 +43,8 @@ def required_cells(tier):
              'where:class', 'where:module', 'where:deco', 'start-line-checks', 'part-offset-checks',
              'blank-lines-before-first-block', 'ignored-block-before-doctest',
              'opening-line-differs-from-evaluated-text', 'open:on-the-def-line',
-             'traceback-entries-of-inner-frames', 'file-encoding:latin-1'])
+             'traceback-entries-of-inner-frames', 'file-encoding:latin-1',
+             'identifier-normalised-by-the-compiler'])
 
 
 def gen_doctest(rng, uid, fail_kind):
@@ -233,6 +234,13 @@ def gen_module(rng, seed):
                 out += ['@_d', '@_d2(', '    1,', ')']
                 feats.add('where:deco')
             defline = rng.choice(['def fn%d(a=1):', 'def fn%d(a=1,\n        b=2):', 'async def fn%d(a=1):']) % k
+            fname = 'fn%d' % k
+            if kind in ('deco', 'deco2') and rng.random() < 0.2:
+                # an identifier the compiler normalises (micro sign -> greek mu): the name in the ast is not the text
+                # on the def line (finding F42)
+                defline = defline.replace('fn%d' % k, '\xb5fn%d' % k)
+                fname = '\u03bcfn%d' % k
+                feats.add('identifier-normalised-by-the-compiler')
             dl, infos = docstring(4, style)
             if rng.random() < 0.12:
                 # the docstring is opened on the line of its def and is the whole body (finding F28)
@@ -241,7 +249,7 @@ def gen_module(rng, seed):
             else:
                 out.append(defline)
                 out += dl + ['    return a']
-            name = 'fn%d' % k
+            name = fname
             feats.add('where:func')
         elif kind == 'class':
             out.append('class K%d:' % k)
@@ -277,7 +285,7 @@ def check_module(ctx, idx, seed):
         src = src.replace('\n', eol)
         feats.add('file-line-ends:crlf')
     enc = 'utf8'
-    if rng.random() < 0.12 and all(ord(c) < 256 for c in src):
+    if rng.random() < 0.12 and all(ord(c) < 256 for c in src) and '\xb5' not in src:
         # a source file in another encoding, declared by a cookie (finding F33)
         src = '# -*- coding: latin-1 -*-' + eol + src + '_caf = "caf\xe9"' + eol
         enc = 'latin-1'
